@@ -112,7 +112,11 @@ func runProperty(id, tier, repo string, quiet, writeEv bool, seed int64) (exit i
 	func() {
 		defer func() {
 			if r := recover(); r != nil {
-				c.add("PANIC", id, VIOLATION, 0, fmt.Sprintf("checker panic (undecided, reported as failure): %v\n%s", r, trimStack(debug.Stack())))
+				// a rule that trips over a shape it did not expect has decided nothing: that is UNDECIDED (printed,
+				// recorded in the evidence with the stack), not evidence against the code. Load and type errors
+				// still fail. The obligations the rule did not get to are missing from the evidence, and the
+				// floors of their rules report that.
+				c.add("PANIC", id, UNDECIDED, 0, fmt.Sprintf("checker panic in a rule (nothing decided from here on): %v\n%s", r, trimStack(debug.Stack())))
 			}
 		}()
 		run(c)
